@@ -1,0 +1,34 @@
+//go:build verif
+
+package ca
+
+import (
+	"context"
+	"net/http"
+
+	"github.com/smallstep/certificates/authority"
+)
+
+// Hooks for the verification harness (build tag verif, add-only): the handler and base context that
+// Init assembled for the TLS server, and the authority behind it, so that requests can be served
+// in-process through exactly what the listening server would run.
+
+// VerifHandler returns the handler of the main (TLS) server and the base context of its requests.
+func (ca *CA) VerifHandler() (http.Handler, context.Context) {
+	var base context.Context = context.Background()
+	if ca.srv.BaseContext != nil {
+		base = ca.srv.BaseContext(nil)
+	}
+	return ca.srv.Handler, base
+}
+
+// VerifInsecureHandler returns the handler of the insecure (HTTP) server, nil when it is not configured.
+func (ca *CA) VerifInsecureHandler() http.Handler {
+	if ca.insecureSrv == nil {
+		return nil
+	}
+	return ca.insecureSrv.Handler
+}
+
+// VerifAuthority returns the authority the CA was initialised with.
+func (ca *CA) VerifAuthority() *authority.Authority { return ca.auth }
